@@ -383,6 +383,37 @@ Theorem C03_reorg_replaces_proposals : forall c cur e ep t n,
 Proof. exact refresh_prop_replaces. Qed.
 Print Assumptions C03_reorg_replaces_proposals.
 
+(* the property's sentence in one statement: a head event for the current slot whose previous
+   dependent root changed (and only that) replaces the current epoch's attestation jobs by exactly
+   those of the duties the node reports now *)
+Theorem C03_reorg_replaces_on_head_event : forall c st slot pr cr s,
+  slot = st_cur st ->
+  let ce := cur_epoch c (st_cur st) in
+  let d := reorg_decide (st_last_epoch st) (st_prev_root st) (st_cur_root st) (slot_to_epoch (c_ct c) slot) pr cr in
+  fst d = true -> snd d = false ->
+  texists (st_jobs st) (JPrep ce) = false ->
+  0 < first_slot_of_epoch (c_ct c) (add64 ce 1) ->
+  epoch_has c ce s = true ->
+  (c_ft_att c = false \/ s <> slot) ->
+  let ds := alookup (e_att (st_env st)) ce in
+  let notcur := negb (epoch_has c ce (st_cur st) && texists (st_jobs st) (JAtt (st_cur st))) in
+  tget (st_jobs (head_event c st slot pr cr)) (JAtt s) =
+  if e_vals (st_env st) && att_wanted c (st_cur st) notcur ds ce s then Some (att_job c ds ce s) else None.
+Proof. exact head_event_prev_root_replaces. Qed.
+Print Assumptions C03_reorg_replaces_on_head_event.
+
+Example C03_reorg_on_head_event_nonvacuous :
+  let env1 := {| e_att := [(1, [ {| ad_slot := 6; ad_val := 1; ad_comm := 0; ad_vci := 5 |} ])];
+                 e_prop := []; e_sync := []; e_vals := true |} in
+  let env2 := {| e_att := [(1, [ {| ad_slot := 7; ad_val := 2; ad_comm := 0; ad_vci := 6 |} ])];
+                 e_prop := []; e_sync := []; e_vals := true |} in
+  let st := run false wcfg (init_state false 0) [Advance 4; SetEnv env1; Start; Head 4 1 2; SetEnv env2] in
+  let d := reorg_decide (st_last_epoch st) (st_prev_root st) (st_cur_root st) (slot_to_epoch (c_ct wcfg) 4) 5 2 in
+  fst d = true /\ snd d = false /\ texists (st_jobs st) (JPrep 1) = false /\
+  map j_name (st_jobs st) = [JAtt 6] /\
+  map (fun j => (j_name j, j_pay j)) (st_jobs (head_event wcfg st 4 5 2)) = [(JAtt 7, [(2, 0, 6)])].
+Proof. vm_compute. repeat split; reflexivity. Qed.
+
 (* the guard of the refresh: while "Prepare for epoch ep" is pending nothing is touched *)
 Theorem C03_refresh_waits_for_preparation : forall c cur e ep t,
   texists t (JPrep ep) = true -> refresh_att c cur e ep t = t.
